@@ -1,4 +1,4 @@
-import Nstd.Hash.PtrLoops
+import Nstd.Hash.PtrSelf
 /-
   One step of the pointer-level two-table machine is simulated by one step of the chain-list machine.
 -/
@@ -206,6 +206,26 @@ theorem pstep_sim (kind : Kind) (h : Nat → Nat) (ps : PState) (s : State) (op 
     exact ⟨by triv, hp.set t e2 (by rw [e3]; exact (hp.get t).2)⟩
   | setValue t k v =>
     obtain ⟨pt', e1, e2, e3⟩ := (hp.get t).1.setValue (hs.get t) k v
+    simp only [pstep, step, hav, Bool.not_true, Bool.false_eq_true, if_false, optSet, e1, Option.map_some]
+    exact ⟨by triv, hp.set t e2 (by rw [e3]; exact (hp.get t).2)⟩
+  | assignSelf t =>
+    simp only [pstep, step, hav, Bool.not_true, Bool.false_eq_true, if_false]
+    exact ⟨by triv, hp⟩
+  | swapSelf t =>
+    obtain ⟨e1, e2⟩ := (hp.get t).1.swapSelf (hs.get t)
+    simp only [pstep, step, hav, Bool.not_true, Bool.false_eq_true, if_false]
+    have := hp.set t e1 (by rw [e2]; exact (hp.get t).2)
+    have hss : s.set t (s.get t) = s := by cases t <;> rfl
+    rw [hss] at this
+    exact ⟨by triv, this⟩
+  | appendSelf t =>
+    have hk : kind ≠ Kind.map := by
+      intro hk; rw [hk] at hav; simp [Op.available] at hav
+    obtain ⟨e1, e2⟩ := (hp.get t).1.appendSelf (hs.get t) kind hk
+    simp only [pstep, step, hav, Bool.not_true, Bool.false_eq_true, if_false, optSet, e1, e2, Option.map_some]
+    exact ⟨by triv, hp.set t (hp.get t).1 (hp.get t).2⟩
+  | removeSelf t =>
+    obtain ⟨pt', e1, e2, e3⟩ := (hp.get t).1.removeSelf (hs.get t)
     simp only [pstep, step, hav, Bool.not_true, Bool.false_eq_true, if_false, optSet, e1, Option.map_some]
     exact ⟨by triv, hp.set t e2 (by rw [e3]; exact (hp.get t).2)⟩
   | find t k =>
